@@ -1,0 +1,101 @@
+//go:build verif
+
+package interp
+
+import (
+	"bytes"
+	"context"
+	"maps"
+	"slices"
+	"strings"
+
+	"mvdan.cc/sh/v3/expand"
+	"mvdan.cc/sh/v3/syntax"
+)
+
+// VerifC27Var is a deep copy of one variable as seen by a Runner.
+type VerifC27Var struct {
+	Name                            string
+	Set, Local, Exported, ReadOnly bool
+	Kind                            int
+	Str                             string
+	List                            []string
+	Indexes                         []int // nil when dense
+	HasIndexes                      bool
+	Map                             map[string]string // nil when the Go map is nil
+}
+
+// VerifC27Snapshot is a deep copy of the shell state of a Runner that the
+// shell language can observe: variables, functions, aliases, options,
+// directory, directory stack, positional parameters.
+type VerifC27Snapshot struct {
+	Vars     []VerifC27Var
+	Funcs    map[string]string // name -> printed body
+	Alias    map[string]string // name -> printed words (+ trailing blank)
+	Opts     []bool
+	Dir      string
+	DirStack []string
+	Params   []string
+	InFunc   bool
+}
+
+// VerifC27SnapshotCtx snapshots the Runner that is calling a handler with ctx
+// (the subshell's own Runner when called from inside a subshell).
+func VerifC27SnapshotCtx(ctx context.Context) VerifC27Snapshot {
+	return HandlerCtx(ctx).runner.VerifC27Snapshot()
+}
+
+// VerifC27Snapshot snapshots r. It only reads r.
+func (r *Runner) VerifC27Snapshot() VerifC27Snapshot {
+	var s VerifC27Snapshot
+	seen := map[string]bool{}
+	var names []string
+	if r.writeEnv != nil {
+		r.writeEnv.Each(func(name string, _ expand.Variable) bool {
+			if !seen[name] {
+				seen[name] = true
+				names = append(names, name)
+			}
+			return true
+		})
+	}
+	slices.Sort(names)
+	for _, name := range names {
+		vr := r.writeEnv.Get(name)
+		if !vr.Declared() {
+			continue
+		}
+		s.Vars = append(s.Vars, VerifC27Var{
+			Name: name, Set: vr.Set, Local: vr.Local, Exported: vr.Exported, ReadOnly: vr.ReadOnly,
+			Kind: int(vr.Kind), Str: vr.Str,
+			List: slices.Clone(vr.List), Indexes: slices.Clone(vr.Indexes), HasIndexes: vr.Indexes != nil,
+			Map: maps.Clone(vr.Map),
+		})
+	}
+	s.Funcs = map[string]string{}
+	for name, body := range r.Funcs {
+		var buf bytes.Buffer
+		syntax.NewPrinter().Print(&buf, body)
+		s.Funcs[name] = buf.String()
+	}
+	s.Alias = map[string]string{}
+	for name, als := range r.alias {
+		var sb strings.Builder
+		for i, w := range als.args {
+			if i > 0 {
+				sb.WriteByte(' ')
+			}
+			syntax.NewPrinter().Print(&sb, w)
+		}
+		if als.blank {
+			sb.WriteByte(' ')
+		}
+		s.Alias[name] = sb.String()
+	}
+	s.Opts = slices.Clone(r.opts[:])
+	s.Dir = r.Dir
+	s.DirStack = slices.Clone(r.dirStack)
+	s.Params = slices.Clone(r.Params)
+	s.InFunc = r.inFunc
+	return s
+}
